@@ -1220,3 +1220,10 @@ func init() {
 		},
 	})
 }
+
+// rule addenda (rounds 9-12): what the evidence says about the coverage of a run
+func init() {
+	if p := registry["C19"]; p != nil {
+		p.Rule += " The grid contains identifiers with capital letters (1.0.0-RC1, 2.0.0-Beta): a version is compared as it was given."
+	}
+}
